@@ -898,7 +898,7 @@ bool Builder::StartEdge(Edge* edge, string* err) {
   // XXX: this will block; do we care?
   for (vector<Node*>::iterator o = edge->outputs_.begin();
        o != edge->outputs_.end(); ++o) {
-    if (!disk_interface_->MakeDirs((*o)->path()))
+    if (!config_.dry_run && !disk_interface_->MakeDirs((*o)->path()))
       return false;
     if (build_start == -1) {
       disk_interface_->WriteFile(lock_file_path_, "", false);
@@ -914,13 +914,14 @@ bool Builder::StartEdge(Edge* edge, string* err) {
   // Create depfile directory if needed.
   // XXX: this may also block; do we care?
   std::string depfile = edge->GetUnescapedDepfile();
-  if (!depfile.empty() && !disk_interface_->MakeDirs(depfile))
+  if (!depfile.empty() && !config_.dry_run &&
+      !disk_interface_->MakeDirs(depfile))
     return false;
 
   // Create response file, if needed
   // XXX: this may also block; do we care?
   string rspfile = edge->GetUnescapedRspfile();
-  if (!rspfile.empty()) {
+  if (!rspfile.empty() && !config_.dry_run) {
     string content = edge->GetBinding("rspfile_content");
     if (!disk_interface_->WriteFile(rspfile, content, true))
       return false;
